@@ -1,6 +1,11 @@
 package bip39
 
 import (
+	"fmt"
+	"time"
+	"sync"
+	"os/exec"
+	"encoding/json"
 	"unicode/utf8"
 	"crypto/hmac"
 	"crypto/sha256"
@@ -166,6 +171,8 @@ func runF(op string, in M) (M, M) {
 		}
 		p := vCatch(func() { RegisterWordList(lang, func() wordlist.List { return &customList{ws} }) })
 		return M{"panic": p}, M{}
+	case "bip39.par":
+		return parChild(in), M{}
 	case "bip39.EntropyToMnemonic":
 		ent := vBuf("EntropyToMnemonic entropy", in["entropy"]) // the caller's buffer, reused by later calls
 		keep := append([]byte{}, ent...)
@@ -233,8 +240,19 @@ func emit(op string, in M) M {
 	out, facts := runF(op, in)
 	rec.i++
 	writeEvent(rec, op, in, out, facts)
+	// now and then the same call is made again, twice (what the first call left behind must not matter)
+	nEmit++
+	if nEmit%4 == 0 && (op == "bip39.MnemonicToSeed" || op == "bip39.MnemonicToEntropy" || op == "bip39.EntropyToMnemonic") {
+		for q := 0; q < 2; q++ {
+			o2, f2 := runF(op, in)
+			rec.i++
+			writeEvent(rec, op, in, o2, f2)
+		}
+	}
 	return out
 }
+
+var nEmit int
 
 func setLang(l string) {
 	rec.newTrace()
@@ -294,6 +312,15 @@ func chain(r *rand.Rand, ent []byte, full bool) {
 	}
 	ws := out["words"].([][]int)
 	emit("bip39.MnemonicToEntropy", M{"words": ws})
+	{ // the empty string is not a list word: in place of the first word, and of every leading occurrence of word 0
+		c := make([][]int, len(ws))
+		copy(c, ws)
+		first := string(vBytesOfInts(ws[0]))
+		for i := 0; i < len(c) && (i == 0 || string(vBytesOfInts(c[i])) == first); i++ {
+			c[i] = []int{}
+		}
+		emit("bip39.MnemonicToEntropy", M{"words": c})
+	}
 	if !full {
 		return
 	}
@@ -358,6 +385,90 @@ func chain(r *rand.Rand, ent []byte, full bool) {
 	mut(func(w [][]int) [][]int { return w[:r.Intn(n)] })
 }
 
+// parChild: concurrent use of the package right after a word list was selected, in a child process (a data race on
+// a map aborts the whole process: that, too, is an answer)
+func parChild(in M) M {
+	spec, _ := json.Marshal(in)
+	cmd := exec.Command(os.Args[0], "-test.run", "^TestVerifParChild$", "-test.count=1")
+	cmd.Env = append(os.Environ(), "VERIF_PAR_IN="+string(spec))
+	done := make(chan struct{})
+	var outb []byte
+	go func() { outb, _ = cmd.CombinedOutput(); close(done) }()
+	select {
+	case <-done:
+	case <-time.After(120 * time.Second):
+		cmd.Process.Kill()
+		panic("verif: bip39 concurrent child timed out (infrastructure)")
+	}
+	for _, ln := range strings.Split(string(outb), "\n") {
+		if strings.HasPrefix(ln, "VERIF-PAR-RESULT") {
+			return M{"panic": strings.TrimSpace(strings.TrimPrefix(ln, "VERIF-PAR-RESULT"))}
+		}
+	}
+	for _, ln := range strings.Split(string(outb), "\n") {
+		if strings.HasPrefix(ln, "panic:") || strings.HasPrefix(ln, "fatal error:") {
+			return M{"panic": "verif: concurrent use crashed the process: " + ln}
+		}
+	}
+	panic("verif: bip39 concurrent child gave no result (infrastructure): " + string(outb))
+}
+
+func TestVerifParChild(t *testing.T) {
+	raw := os.Getenv("VERIF_PAR_IN")
+	if raw == "" {
+		t.Skip()
+	}
+	var in M
+	if err := json.Unmarshal([]byte(raw), &in); err != nil {
+		panic(err)
+	}
+	lang := in["lang"].(string)
+	r := rand.New(rand.NewSource(int64(vIntOf(in["seed"]))))
+	if err := SetWordList(lang); err != nil {
+		panic(err)
+	}
+	const K = 8
+	ents, sents, seeds := make([][]byte, K), make([]Mnemonic, K), make([][]byte, K)
+	passes := []string{"", "TREZOR", "a", "bb", "\u00e9", "pass phrase", "0123456789", "zz"}
+	for k := range ents {
+		ents[k] = make([]byte, []int{16, 24, 32}[k%3])
+		r.Read(ents[k])
+		m, err := EntropyToMnemonic(ents[k])
+		if err != nil {
+			panic(err)
+		}
+		sents[k] = m
+		seeds[k] = pbkdf2Ref([]byte(strings.Join(m, " ")), []byte("mnemonic"+norm.NFKD.String(passes[k])))
+	}
+	if err := SetWordList(lang); err != nil { // a freshly selected list: nothing has been decoded with it yet
+		panic(err)
+	}
+	msg := ""
+	var mu sync.Mutex
+	var wg sync.WaitGroup
+	start := make(chan struct{})
+	for g := 0; g < K; g++ {
+		wg.Add(1)
+		go func(g int) {
+			defer wg.Done()
+			<-start
+			for rep := 0; rep < 6; rep++ {
+				e, err := MnemonicToEntropy(append(Mnemonic{}, sents[g]...))
+				s, err2 := MnemonicToSeed(append(Mnemonic{}, sents[g]...), passes[g])
+				if err != nil || err2 != nil || string(e) != string(ents[g]) || string(s) != string(seeds[g]) {
+					mu.Lock()
+					msg = "verif: a call made concurrently with other calls gave a different answer than alone"
+					mu.Unlock()
+					return
+				}
+			}
+		}(g)
+	}
+	close(start)
+	wg.Wait()
+	fmt.Println("VERIF-PAR-RESULT " + msg)
+}
+
 func TestVerifDriver(t *testing.T) {
 	rec = vOpen()
 	defer rec.close()
@@ -378,9 +489,18 @@ func TestVerifDriver(t *testing.T) {
 		return
 	}
 	r := vRand(3)
+	r0 := vRand(33)
 	n := vEnvInt("VERIF_N", 60)
 	focus := os.Getenv("VERIF_FOCUS")
 	langs := []string{"english", "japanese"}
+	if vEnvInt("VERIF_PAR_MS", 1200) > 0 {
+		defer func() {
+			for _, lg := range langs {
+				setLang(lg)
+				emit("bip39.par", M{"seed": r0.Intn(1 << 30)})
+			}
+		}()
+	}
 	lens := []int{16, 20, 24, 28, 32, 36, 40, 44, 48, 52, 56, 60, 64}
 	if focus != "c09" {
 		setLang("klingon")
